@@ -35,13 +35,18 @@ CHECKS = {
                 text=TRACE_TXT + "every I/O step of every commit/compaction/close is failed once; the monitor keeps the set "
                      "of admissible graphs (pre / post) and narrows it at reopen.",
                 note="one fault per run"),
+    "C17": dict(ref="5 C17", tech="TLA+ trace validation (StorageTrace) of crash images with hostile log tails + WalTail model",
+                text=TRACE_TXT + "every process-death image (the log exactly as written up to each I/O step, which includes every "
+                     "truncation point inside a record) is extended by six hostile tails, opened, extended by a commit and reopened.",
+                note="tails: 64 zero bytes, 37 pseudo-random bytes, length 0x7ffffff0, header announcing more bytes than follow, "
+                     "complete record with wrong checksum, bit flip in the last byte"),
     "C28": dict(ref="5 C28", tech="TLA+ trace validation (StorageTrace)",
                 text=TRACE_TXT + "close, vacuum, reopen, dump, write, reopen.",
                 note="vacuum of a cleanly closed database only"),
 }
 
 # properties whose check has been run green on the unchanged tree
-ENABLED = ["C01", "C02", "C04", "C05", "C06", "C07", "C08", "C28"]
+ENABLED = ["C01", "C02", "C04", "C05", "C06", "C07", "C08", "C17", "C28"]
 
 NOT_APPLICABLE = {
     "C16": "quantifies over arbitrary byte strings and resource exhaustion; no state machine to specify, a fuzzer's job (DESIGN.md 6)",
